@@ -132,12 +132,16 @@ def check_azimuthal(ctx, psf, rng):
     mx = float(np.abs(data).max()) + 1e-300
     if kind == 0:
         ctx.close("azavg_constant", got, np.full(size // 2, data.flat[0]), 1e-13 * mx, "azimuthal_average:constant", wit)
-    ctx.check(bool(np.all(got >= data.min() - 1e-13 * mx) and np.all(got <= data.max() + 1e-13 * mx)), "azimuthal_average:bounds",
-              "a value lies outside [min, max] of the image", wit)
     c = np.arange(size) + 0.5 - size / 2.0
     d2 = np.add.outer(c ** 2, c ** 2)
-    want = np.array([data[(d2 <= (i + 1) ** 2) & ~(d2 <= i ** 2)].mean() for i in range(size // 2)])
-    ctx.close("azavg_vs_ring_means", got, want, 1e-12 * mx, "azimuthal_average:ring_means", wit, scale=mx)
+    rings = [data[(d2 <= (i + 1) ** 2) & ~(d2 <= i ** 2)] for i in range(size // 2)]
+    want = np.array([r.mean() for r in rings])
+    # the mean of a ring can only be off by rounding relative to the values *in that ring* (not to the brightest pixel
+    # of the image): a faint flat outer region next to a bright core must still average to its own level
+    rtol = np.array([64 * 2.3e-16 * float(np.abs(r).max()) * max(1, len(r)) ** 0.5 + 1e-300 for r in rings])
+    ctx.check(bool(np.all(got >= data.min() - rtol) and np.all(got <= data.max() + rtol)), "azimuthal_average:bounds",
+              "a value lies outside [min, max] of the image (min %.3g, smallest output %.3g)" % (float(data.min()), float(got.min())), wit)
+    ctx.close("azavg_vs_ring_means", got, want, rtol, "azimuthal_average:ring_means", wit, scale=mx)
 
 
 def check_ee(ctx, psf, rng):
